@@ -27,6 +27,7 @@ func gen(t *rapid.T) peng.Case {
 		}
 	}
 	c.GoMaxProcs = rapid.SampledFrom([]int{0, 0, 1, 2, 4}).Draw(t, "gomaxprocs")
+	c.Jitter = peng.GenJitter(t)
 	return c
 }
 
